@@ -36,7 +36,8 @@ let () =
     | ["PM"; id; r; l; name; tid] ->
       Hashtbl.replace vocab (int_of_string id)
         { tt = n_of_int 3; lit = []; ainfo = Some { t_ref = (r = "1"); t_list = (l = "1"); t_name = n_of_int (int_of_string name); t_id = n_of_int (int_of_string tid) } }
-    | ["TTP"; v] -> ignore v
+    | ["PN"; id] ->
+      Hashtbl.replace vocab (int_of_string id) { tt = n_of_int 3; lit = []; ainfo = None }
     | ["Q"] ->
       let n = Hashtbl.length vocab in
       for i = 0 to n - 1 do
